@@ -158,7 +158,11 @@ func init() {
 				if err != nil {
 					return "err"
 				}
-				v, _ := c.Version.Marshal()
+				// the fields of the parsed version, laid out by the harness (not by the library's own encoder: a decoder and
+				// an encoder that are wrong in the same way would hide each other)
+				ver := c.Version
+				v := []byte{ver.ProductMajorVersion, ver.ProductMinorVersion, byte(ver.ProductBuild), byte(ver.ProductBuild >> 8),
+					ver.Reserved[0], ver.Reserved[1], ver.Reserved[2], ver.NTLMRevision}
 				return fmt.Sprintf("ok %d %s %s %s %s %s", c.NegotiateFlags, hx(c.ServerChallenge[:]), hx(c.Reserved[:]), hx(c.TargetName), hx(c.TargetInfo), hx(v))
 			}},
 			{Name: "c08.ti", Impl: func(a []string) string {
